@@ -130,14 +130,34 @@ Proof. unfold log_record, delivery, lg_sinks. now rewrite sink_tree_flat. Qed.
 
 (* ---------------------------------------------------------------- the smart_stream operations *)
 
-Definition dead : sstream := mkSS None None.
-Definition live (r : record) (b : str) : sstream := mkSS (Some r) (Some b).
+Definition dead : sstream := mkSS None None false.
+(* a stream that owns its record and a buffer holding b; bad = the stringstream has failed *)
+Definition liveb (r : record) (b : str) (bad : bool) : sstream := mkSS (Some r) (Some b) bad.
+Definition live (r : record) (b : str) : sstream := liveb r b false.
 
-Lemma message_cons it its : message (it :: its) = item_text it ++ message its.
+Lemma msg_from_cons bad it its :
+  msg_from bad (it :: its) = (if bad then [] else item_text it) ++ msg_from (bad || is_fail it) its.
 Proof. reflexivity. Qed.
 
-Lemma message_app a b : message (a ++ b) = message a ++ message b.
-Proof. unfold message. now rewrite map_app, concat_app. Qed.
+(* once the stream has failed nothing more is written *)
+Lemma msg_from_bad its : msg_from true its = [].
+Proof. induction its as [|it its IH]; [reflexivity|]. simpl. exact IH. Qed.
+
+(* without a failing item the message is the plain concatenation of everything streamed *)
+Lemma message_plain its : (forall it, In it its -> is_fail it = false) -> message its = concat (map item_text its).
+Proof.
+  unfold message. induction its as [|it its IH]; intros H; [reflexivity|].
+  rewrite msg_from_cons. rewrite (H it (or_introl eq_refl)). simpl. f_equal. apply IH. intros x Hx. apply H. now right.
+Qed.
+
+(* with one: the concatenation of what was streamed before the first failing item *)
+Lemma message_until_fail pre k post :
+  (forall it, In it pre -> is_fail it = false) -> message (pre ++ IFail k :: post) = concat (map item_text pre).
+Proof.
+  unfold message. induction pre as [|it pre IH]; intros H.
+  - simpl. apply msg_from_bad.
+  - cbn [app]. rewrite msg_from_cons. rewrite (H it (or_introl eq_refl)). simpl. f_equal. apply IH. intros x Hx. apply H. now right.
+Qed.
 
 Lemma calls_of_cons it its : calls_of (it :: its) = calls_of [it] ++ calls_of its.
 Proof. unfold calls_of. simpl. now rewrite app_nil_r. Qed.
@@ -145,8 +165,9 @@ Proof. unfold calls_of. simpl. now rewrite app_nil_r. Qed.
 Lemma calls_of_app a b : calls_of (a ++ b) = calls_of a ++ calls_of b.
 Proof. unfold calls_of. now rewrite flat_map_app. Qed.
 
-Lemma ss_put_live r b it :
-  ss_put (live r b) it = (live r (b ++ item_text it), map Call (calls_of [it])).
+Lemma ss_put_live r b bad it :
+  ss_put (liveb r b bad) it
+  = (liveb r (b ++ (if bad then [] else item_text it)) (bad || is_fail it), map Call (calls_of [it])).
 Proof. destruct it; reflexivity. Qed.
 
 (* a callable is a callable: its C++ shape changes nothing in the model *)
@@ -164,16 +185,16 @@ Proof. induction n as [|n IH]; simpl; [reflexivity|]. now rewrite IH. Qed.
 
 (* a `<<` chain on an accepted stream: the last temporary owns the record and the whole text,
    every earlier temporary has been emptied, the callables were called in order *)
-Lemma one_chain_live r its : forall b olds,
-  one_chain (live r b) olds its
-  = ((live r (b ++ message its), repeat dead (length its) ++ olds), map Call (calls_of its)).
+Lemma one_chain_live r its : forall b bad olds,
+  one_chain (liveb r b bad) olds its
+  = ((liveb r (b ++ msg_from bad its) (bad_after bad its), repeat dead (length its) ++ olds), map Call (calls_of its)).
 Proof.
-  induction its as [|it rest IH]; intros b olds.
+  induction its as [|it rest IH]; intros b bad olds.
   - simpl. now rewrite app_nil_r.
-  - cbn [one_chain]. rewrite ss_put_live. cbn [ss_move live ss_r ss_s].
-    change (mkSS (Some r) (Some (b ++ item_text it))) with (live r (b ++ item_text it)).
-    change (mkSS None None) with dead.
-    rewrite IH. rewrite message_cons, app_assoc. rewrite repeat_shift.
+  - cbn [one_chain]. rewrite ss_put_live. cbn [ss_move liveb ss_r ss_s ss_bad].
+    change (mkSS (Some r) (Some ?x) ?y) with (liveb r x y).
+    change (mkSS None None false) with dead.
+    rewrite IH. rewrite msg_from_cons, app_assoc. cbn [bad_after]. rewrite repeat_shift.
     rewrite (calls_of_cons it rest), map_app. reflexivity.
 Qed.
 
@@ -182,8 +203,8 @@ Lemma one_chain_dead its : forall olds,
 Proof.
   induction its as [|it rest IH]; intros olds.
   - reflexivity.
-  - cbn [one_chain]. rewrite ss_put_dead. cbn [ss_move dead ss_r ss_s].
-    change (mkSS None None) with dead. rewrite IH, repeat_shift. reflexivity.
+  - cbn [one_chain]. rewrite ss_put_dead. cbn [ss_move dead ss_r ss_s ss_bad].
+    change (mkSS None None false) with dead. rewrite IH, repeat_shift. reflexivity.
 Qed.
 
 Lemma destroy_dead cfg lg sv : ss_destroy cfg lg sv dead = [].
@@ -192,9 +213,9 @@ Proof. reflexivity. Qed.
 Lemma destroy_deads cfg lg sv n : flat_map (ss_destroy cfg lg sv) (repeat dead n) = [].
 Proof. induction n; simpl; auto. Qed.
 
-Lemma destroy_live cfg lg sv sv' tg m b :
-  ss_destroy cfg lg sv (live (mkRecord sv' tg m) b) = delivery cfg lg sv (mkRecord sv' tg b).
-Proof. cbn [ss_destroy live ss_r ss_s]. apply log_record_delivery. Qed.
+Lemma destroy_live cfg lg sv sv' tg m b bad :
+  ss_destroy cfg lg sv (liveb (mkRecord sv' tg m) b bad) = delivery cfg lg sv (mkRecord sv' tg b).
+Proof. cbn [ss_destroy liveb ss_r ss_s]. apply log_record_delivery. Qed.
 
 Lemma construct_spec th lg sv tag :
   ss_construct th lg sv tag
@@ -211,7 +232,7 @@ Theorem exec_one_spec cfg th lg sv tag its :
 Proof.
   unfold exec_one, spec_stmt, enabled, stream_kind. rewrite sev_ge_gate.
   destruct (gate_open (c_min cfg) sv); [|reflexivity]. simpl andb.
-  rewrite construct_spec. destruct (holds (th (lg_rec lg)) (lg_filter lg) sv).
+  rewrite construct_spec; unfold live. destruct (holds (th (lg_rec lg)) (lg_filter lg) sv).
   - rewrite one_chain_live. cbn [flat_map]. rewrite (app_nil_r (repeat dead (length its))), destroy_deads.
     rewrite app_nil_r. cbn [app]. rewrite destroy_live. reflexivity.
   - rewrite one_chain_dead. cbn [flat_map]. rewrite app_nil_r, destroy_deads. reflexivity.
@@ -235,9 +256,47 @@ Lemma one_chain_prefix th lg sv tag pre :
   holds (th (lg_rec lg)) (lg_filter lg) sv = true ->
   exists olds,
     one_chain (ss_construct th lg sv tag) [] pre
-    = ((live (mkRecord sv (rec_tag lg tag) []) (message pre), olds), map Call (calls_of pre)).
+    = ((liveb (mkRecord sv (rec_tag lg tag) []) (message pre) (bad_after false pre), olds), map Call (calls_of pre)).
 Proof.
-  intros H. rewrite construct_spec, H, one_chain_live. eexists. reflexivity.
+  intros H. rewrite construct_spec, H. unfold live. rewrite one_chain_live. eexists. reflexivity.
+Qed.
+
+Lemma stream_puts_live r its : forall b bad,
+  stream_puts (SSmart (liveb r b bad)) its
+  = (SSmart (liveb r (b ++ msg_from bad its) (bad_after bad its)), map Call (calls_of its)).
+Proof.
+  induction its as [|it rest IH]; intros b bad.
+  - simpl. now rewrite app_nil_r.
+  - cbn [stream_puts stream_put]. rewrite ss_put_live. rewrite IH. cbn [bad_after].
+    now rewrite msg_from_cons, app_assoc, (calls_of_cons it rest), map_app.
+Qed.
+
+Lemma stream_puts_dead its : stream_puts (SSmart dead) its = (SSmart dead, []).
+Proof. induction its as [|it rest IH]; [reflexivity|]. cbn [stream_puts stream_put]. rewrite ss_put_dead, IH. reflexivity. Qed.
+
+Lemma stream_puts_null its : stream_puts SNull its = (SNull, []).
+Proof. induction its as [|it rest IH]; [reflexivity|]. cbn [stream_puts stream_put]. rewrite IH. reflexivity. Qed.
+
+(* what a stream created by make_stream does with a sequence of insertions and its destruction *)
+Lemma made_stream_life cfg th lg sv tag its :
+  snd (stream_puts (make_stream cfg th lg sv tag) its)
+  ++ stream_destroy cfg lg sv (fst (stream_puts (make_stream cfg th lg sv tag) its))
+  = spec_stmt cfg th lg sv tag its.
+Proof.
+  unfold make_stream, spec_stmt, enabled, stream_kind. rewrite sev_ge_gate.
+  destruct (gate_open (c_min cfg) sv); cbn [andb].
+  - rewrite construct_spec; unfold live. destruct (holds (th (lg_rec lg)) (lg_filter lg) sv).
+    + rewrite stream_puts_live. cbn [fst snd stream_destroy]. rewrite destroy_live. reflexivity.
+    + rewrite stream_puts_dead. reflexivity.
+  - rewrite stream_puts_null. reflexivity.
+Qed.
+
+(* form 2 with a local variable *)
+Theorem exec_named_spec cfg th lg sv tag its :
+  exec_named cfg th lg sv tag its = spec_stmt cfg th lg sv tag its.
+Proof.
+  unfold exec_named. rewrite <- made_stream_life.
+  destruct (stream_puts (make_stream cfg th lg sv tag) its) as [st ev]. reflexivity.
 Qed.
 
 (* ---------------------------------------------------------------- programs: basic facts *)
@@ -270,7 +329,7 @@ Qed.
 
 Definition stream_rel (l : lstream) (st : stream) : Prop :=
   if l_on l
-  then st = SSmart (live (mkRecord (l_sev l) (l_tag l) []) (l_text l))
+  then st = SSmart (liveb (mkRecord (l_sev l) (l_tag l) []) (l_text l) (l_bad l))
   else st = SNull \/ st = SSmart dead.
 
 Definition slot_rel (o : option slot) (ol : option lstream) : Prop :=
@@ -306,11 +365,11 @@ Proof.
 Qed.
 
 Lemma make_stream_rel cfg th lg sv tag :
-  stream_rel (mkL lg sv (rec_tag lg tag) (enabled (c_min cfg) th lg sv) []) (make_stream cfg th lg sv tag).
+  stream_rel (mkL lg sv (rec_tag lg tag) (enabled (c_min cfg) th lg sv) [] false) (make_stream cfg th lg sv tag).
 Proof.
   unfold stream_rel, make_stream, enabled, stream_kind. cbn [l_on l_sev l_tag l_text].
   rewrite sev_ge_gate. destruct (gate_open (c_min cfg) sv); cbn [andb].
-  - rewrite construct_spec. destruct (holds (th (lg_rec lg)) (lg_filter lg) sv); [reflexivity | now right].
+  - rewrite construct_spec; unfold live. destruct (holds (th (lg_rec lg)) (lg_filter lg) sv); [reflexivity | now right].
   - now left.
 Qed.
 
@@ -318,10 +377,11 @@ Lemma refine_op cfg w sw o : R w sw ->
   R (fst (exec_op cfg w o)) (fst (spec_op cfg sw o))
   /\ snd (exec_op cfg w o) = snd (spec_op cfg sw o).
 Proof.
-  intros HR. destruct o as [rc k s|lg sv tag its|v lg sv tag|v it|v]; cbn [exec_op spec_op].
+  intros HR. destruct o as [rc k s|c lg sv tag its|c lg sv tag its|v lg sv tag|v it|v]; cbn [exec_op spec_op].
   - destruct HR as [Hth Hs]. cbn [fst snd]. split; [|reflexivity]. split; [|exact Hs].
     cbn [w_th s_th]. now rewrite Hth.
   - cbn [fst snd]. split; [exact HR|]. destruct HR as [Hth _]. rewrite <- Hth. apply exec_one_spec.
+  - cbn [fst snd]. split; [exact HR|]. destruct HR as [Hth _]. rewrite <- Hth. apply exec_named_spec.
   - destruct (refine_close cfg w sw v HR) as [HR1 Hev].
     destruct (close_slot cfg w v) as [w1 ev]. destruct (spec_close cfg sw v) as [sw1 ev'].
     cbn [fst snd] in *. split; [|exact Hev]. destruct HR1 as [Hth1 Hs1]. split; [exact Hth1|].
@@ -371,13 +431,6 @@ Definition mid_ok (v : nat) (o : op) : bool :=
 Definition items_of (mid : list op) : list item :=
   flat_map (fun o => match o with OPut _ it => [it] | _ => [] end) mid.
 
-Fixpoint stream_puts (st : stream) (its : list item) : stream * list event :=
-  match its with
-  | [] => (st, [])
-  | it :: rest => let '(st1, ev) := stream_put st it in
-                  let '(st2, ev') := stream_puts st1 rest in (st2, ev ++ ev')
-  end.
-
 Lemma exec_mid cfg v lg sv mid : forall w st,
   forallb (mid_ok v) mid = true ->
   w_slots w v = Some (mkSlot lg sv st) ->
@@ -387,7 +440,7 @@ Proof.
   induction mid as [|o mid IH]; intros w st Hok Hv.
   - exists w. split; [reflexivity | exact Hv].
   - cbn [forallb] in Hok. apply andb_true_iff in Hok as [Ho Hok].
-    destruct o as [rc k s|?|?|v' it|?]; try discriminate.
+    destruct o as [rc k s|?|?|?|v' it|?]; try discriminate.
     + (* OSet *) cbn [exec_prog exec_op].
       destruct (IH (mkWorld (set_threshold (w_th w) rc k s) (w_slots w)) st Hok Hv) as (w' & E & Hv').
       rewrite E. exists w'. split; [reflexivity | exact Hv'].
@@ -410,40 +463,11 @@ Proof.
   induction mid as [|o mid IH]; intros w w' ev Hok E Hns.
   - simpl in E. now inversion E.
   - cbn [forallb] in Hok, Hns. apply andb_true_iff in Hok as [Ho Hok]. apply andb_true_iff in Hns as [Hn Hns].
-    destruct o as [rc k s|?|?|v' it|?]; try discriminate.
+    destruct o as [rc k s|?|?|?|v' it|?]; try discriminate.
     cbn [exec_prog] in E. destruct (exec_op cfg w (OPut v' it)) as [w1 e1] eqn:E1.
     destruct (exec_prog cfg w1 mid) as [w2 e2] eqn:E2. inversion E; subst.
     rewrite (IH w1 w' e2 Hok E2 Hns). cbn [exec_op] in E1.
     destruct (w_slots w v'); [destruct (stream_put _ _) in E1|]; inversion E1; reflexivity.
-Qed.
-
-Lemma stream_puts_live r its : forall b,
-  stream_puts (SSmart (live r b)) its = (SSmart (live r (b ++ message its)), map Call (calls_of its)).
-Proof.
-  induction its as [|it rest IH]; intros b.
-  - simpl. now rewrite app_nil_r.
-  - cbn [stream_puts stream_put]. rewrite ss_put_live. rewrite IH.
-    now rewrite message_cons, app_assoc, (calls_of_cons it rest), map_app.
-Qed.
-
-Lemma stream_puts_dead its : stream_puts (SSmart dead) its = (SSmart dead, []).
-Proof. induction its as [|it rest IH]; [reflexivity|]. cbn [stream_puts stream_put]. rewrite ss_put_dead, IH. reflexivity. Qed.
-
-Lemma stream_puts_null its : stream_puts SNull its = (SNull, []).
-Proof. induction its as [|it rest IH]; [reflexivity|]. cbn [stream_puts stream_put]. rewrite IH. reflexivity. Qed.
-
-(* what a stream created by make_stream does with a sequence of insertions and its destruction *)
-Lemma made_stream_life cfg th lg sv tag its :
-  snd (stream_puts (make_stream cfg th lg sv tag) its)
-  ++ stream_destroy cfg lg sv (fst (stream_puts (make_stream cfg th lg sv tag) its))
-  = spec_stmt cfg th lg sv tag its.
-Proof.
-  unfold make_stream, spec_stmt, enabled, stream_kind. rewrite sev_ge_gate.
-  destruct (gate_open (c_min cfg) sv); cbn [andb].
-  - rewrite construct_spec. destruct (holds (th (lg_rec lg)) (lg_filter lg) sv).
-    + rewrite stream_puts_live. cbn [fst snd stream_destroy]. rewrite destroy_live. reflexivity.
-    + rewrite stream_puts_dead. reflexivity.
-  - rewrite stream_puts_null. reflexivity.
 Qed.
 
 (* Open v; (insertions into v and threshold changes)*; Close v  — the filter was consulted once, at Open *)
@@ -494,12 +518,23 @@ Proof.
   destruct (w_slots w2 v); inversion E; subst; cbn [w_th]; exact E2.
 Qed.
 
-Theorem forms_agree cfg w v lg sv tag its :
+Theorem forms_agree cfg w v c lg sv tag its :
   w_slots w v = None ->
-  snd (exec_prog cfg w (named_ops v lg sv tag its)) = snd (exec_prog cfg w [OOne lg sv tag its]).
+  snd (exec_prog cfg w (named_ops v lg sv tag its)) = snd (exec_prog cfg w [OOne c lg sv tag its]).
 Proof.
   intros Hfree. destruct (named_spec cfg w v lg sv tag its Hfree) as (w' & E & _). rewrite E.
   cbn [exec_prog exec_op snd]. now rewrite app_nil_r, exec_one_spec.
+Qed.
+
+(* a statement is a statement: where it is executed (straight-line code, a destructor during stack unwinding, a catch
+   handler, a destructor on normal exit) and which of the forms is used changes nothing *)
+Theorem context_irrelevant cfg w c c' lg sv tag its :
+  exec_op cfg w (OOne c lg sv tag its) = exec_op cfg w (OOne c' lg sv tag its)
+  /\ exec_op cfg w (ONamed c lg sv tag its) = exec_op cfg w (ONamed c' lg sv tag its)
+  /\ exec_op cfg w (ONamed c lg sv tag its) = exec_op cfg w (OOne c' lg sv tag its)
+  /\ snd (exec_op cfg w (OOne c lg sv tag its)) = spec_stmt cfg (w_th w) lg sv tag its.
+Proof.
+  cbn [exec_op snd]. rewrite exec_one_spec, exec_named_spec. repeat split.
 Qed.
 
 (* ---------------------------------------------------------------- sequences of statements: program order *)
@@ -684,7 +719,7 @@ Theorem live_iff_enabled cfg th lg sv tag its :
 Proof.
   unfold make_stream, enabled, stream_kind. rewrite sev_ge_gate.
   destruct (gate_open (c_min cfg) sv); cbn [andb].
-  - rewrite construct_spec. destruct (holds (th (lg_rec lg)) (lg_filter lg) sv).
+  - rewrite construct_spec; unfold live. destruct (holds (th (lg_rec lg)) (lg_filter lg) sv).
     + rewrite stream_puts_live. reflexivity.
     + rewrite stream_puts_dead. reflexivity.
   - rewrite stream_puts_null. reflexivity.
@@ -925,8 +960,9 @@ Qed.
 
 Lemma spec_op_no_fault cfg sw o : ~ In Fault (snd (spec_op cfg sw o)).
 Proof.
-  destruct o as [rc k s|lg sv tag its|v lg sv tag|v it|v]; cbn [spec_op].
+  destruct o as [rc k s|c lg sv tag its|c lg sv tag its|v lg sv tag|v it|v]; cbn [spec_op].
   - intros [].
+  - apply spec_stmt_no_fault.
   - apply spec_stmt_no_fault.
   - pose proof (spec_close_no_fault cfg sw v) as H. destruct (spec_close cfg sw v) as [sw1 ev]. exact H.
   - destruct (s_slots sw v) as [l|]; [|intros []]. destruct (l_on l); [|intros []].
